@@ -1,7 +1,29 @@
-(** Cycle-level correspondence and monitor entry points for C01 (see Run/Cycle.v). *)
+(** C01: cycle-level refinement + monitor (Run/Cycle.v), plus cycles with
+    injected Bind / Evict API failures.  In a fault cycle only the calls that
+    succeeded are listed; the final books are not compared (a failed commit
+    leaves un-emitted operations applied for the rest of the cycle, which only
+    withholds capacity), but every successful call must still be admissible and
+    the monitor must hold. *)
 From KaiV Require Export Run.Cycle.
-Definition model_agrees := cycle_agrees.
-Definition monitor_ok := c01_ok.
-Definition run_mismatches (cs : list (nat * ccase)) : list nat := failing (fun k => negb (model_agrees k)) cs.
-Definition run_monitor (cs : list (nat * ccase)) : list nat := failing (fun k => negb (monitor_ok k)) cs.
-Definition run_flags := cycle_run_flags.
+
+Inductive c01case := FCycle (k : ccase) | FFault (k : ccase).
+
+Definition guards_ok (k : ccase) : bool :=
+  match replay (c_tasks k) (c_nodes k) (c_calls k) with
+  | Some (_, ok) => ok
+  | None => false
+  end.
+
+(** For fault cycles no correspondence is claimed: after a failed Evict the statement's
+    later nominations stand on capacity that is not released, after a failed Bind the
+    un-emitted operations stay applied.  Only successful BINDS must stay admissible w.r.t.
+    the devices and the monitor must hold. *)
+Definition model_agrees (c : c01case) : bool :=
+  match c with FCycle k => cycle_agrees k | FFault k => true end.
+Definition monitor_ok (c : c01case) : bool :=
+  match c with FCycle k => c01_ok k | FFault k => c01_ok k end.
+Definition run_mismatches (cs : list (nat * c01case)) : list nat := failing (fun k => negb (model_agrees k)) cs.
+Definition run_monitor (cs : list (nat * c01case)) : list nat := failing (fun k => negb (monitor_ok k)) cs.
+Definition run_flags (cs : list (nat * c01case)) : list (nat * list nat) :=
+  filter (fun p => negb (Nat.eqb (List.length (snd p)) 0))
+         (map (fun c => (fst c, match snd c with FCycle k => cycle_flags k | FFault _ => [] end)) cs).
